@@ -35,7 +35,7 @@ var importPkgs = []string{"java.util", "java.io", "org.ext.model", "org.ext.svc"
 var importNames = []string{"Widget", "Gadget", "Sprocket", "Lever", "Valve", "Gear", "Bolt", "Rivet", "Flange", "Piston", "Crank", "Shaft", "Pulley", "Spring", "Washer", "Gasket", "Écran", "Ωmega", "Ünit", "Ñandu"}
 var roles = []string{"field", "param", "local", "generic", "annotation", "new", "static-receiver", "catch", "throws", "extends", "implements", "return",
 	"static-field", "enum-constant", "method-ref", "nested-type", "static-chain", "cast", "instanceof", "array", "class-literal",
-	"multi-catch", "generic-bound", "wildcard-bound", "try-resource", "ctor-ref", "annotation-arg", "array-new", "foreach-type", "lambda-body", "field-annotation", "param-annotation", "anon-lambda-new", "anon-lambda-static"}
+	"multi-catch", "generic-bound", "wildcard-bound", "try-resource", "ctor-ref", "annotation-arg", "array-new", "foreach-type", "lambda-body", "field-annotation", "param-annotation", "anon-lambda-new", "anon-lambda-static", "annotation-nested"}
 
 // GenImportProject draws 1..maxFiles files in a small directory tree.
 func GenImportProject(t *tape.Tape, maxFiles int) []ImportFile {
@@ -237,6 +237,9 @@ func genImportFile(t *tape.Tape, cls string, pkg string) ImportFile {
 	}
 	for _, a := range by("annotation") {
 		add("@" + a)
+	}
+	for _, a := range by("annotation-nested") {
+		add("@" + a + ".Strict") // a nested annotation type of the imported type: the import is used
 	}
 	// a fully-qualified name elsewhere in the file whose last segment equals a used import's simple
 	// name (legacy / generated code): it must not make that import look unused
@@ -441,6 +444,12 @@ func genImportFile(t *tape.Tape, cls string, pkg string) ImportFile {
 		out.Text = strings.ReplaceAll(out.Text, "\n", "\r\n") // CRLF
 	case 2:
 		out.Text += "\n\n" // trailing blank lines
+	case 4:
+		// a stray carriage return that is not part of a CRLF (classic-Mac remnant, double conversion)
+		// inside the first line of the file: it is no line break for anybody who counts lines by LF
+		if i := strings.Index(out.Text, "\n"); i > 2 && strings.HasPrefix(out.Text, "package ") {
+			out.Text = out.Text[:i] + " /* old\rheader */" + out.Text[i:]
+		}
 	case 3:
 		// mixed line endings: a CRLF checkout with an LF-only head (pasted licence header, generated
 		// package line) or single LF lines in between
